@@ -491,7 +491,12 @@ pub fn compile(
                 let (annotations, return_refs) = program_annotations
                     .get_annotations_after_take_args(statement_idx, ref_ids.iter())
                     .map_err(|err| Box::new(err.into()))?;
-                return_refs.iter().for_each(|r| r.validate(&program_info.type_sizes));
+                return_refs
+                    .iter()
+                    .try_for_each(|r| r.validate(&program_info.type_sizes))
+                    .map_err(|error| {
+                        Box::new(AnnotationError::ReferencesError { statement_idx, error }.into())
+                    })?;
 
                 if let Some(var_id) = annotations.refs.keys().next() {
                     return Err(Box::new(CompilationError::DanglingReferences {
@@ -550,7 +555,12 @@ pub fn compile(
                 .map_err(|error| {
                     Box::new(AnnotationError::ReferencesError { statement_idx, error }.into())
                 })?;
-                invoke_refs.iter().for_each(|r| r.validate(&program_info.type_sizes));
+                invoke_refs
+                    .iter()
+                    .try_for_each(|r| r.validate(&program_info.type_sizes))
+                    .map_err(|error| {
+                        Box::new(AnnotationError::ReferencesError { statement_idx, error }.into())
+                    })?;
                 let compiled_invocation = compile_invocation(
                     ProgramInfo {
                         metadata,
